@@ -49,6 +49,15 @@ func gen(tier string, emit func(engine.Case) bool) {
 			nspec++
 			st := s.String()
 			counters.Add("specs_depth_"+fmt.Sprint(s.Depth()), 1)
+			maxLabels := 0
+			s.Walk(func(x *sg.Spec) {
+				if len(x.Labels) > maxLabels {
+					maxLabels = len(x.Labels)
+				}
+			})
+			if maxLabels >= 2 {
+				counters.Add("specs_with_label_depth_"+fmt.Sprint(maxLabels), 1)
+			}
 			sg.Bodies(s, k, maxConf, func(b *sg.Body, tag string) bool {
 				if onlyPert2 && tag != "pert2" {
 					return true
@@ -666,6 +675,9 @@ func judge(c engine.Case) engine.Outcome {
 					"hcldec.%s = %s\nreference decoder = %s\n(at spec node %s: %s vs %s)\n%s", fn, vfmt.V(val), vfmt.V(ref.Val), at.s.String(), vfmt.V(at.gotV), vfmt.V(at.wantV), desc())
 			}
 			counters.Add("values_compared", 1)
+			if d.Tag == "labels" {
+				counters.Add("label_vector_bodies_values_compared", 1)
+			}
 		}
 		if hasErr {
 			counters.Add("error_results_type_checked", 1)
@@ -704,8 +716,8 @@ func main() {
 		ID:        "C08",
 		Title:     "Decoding always yields a value of the specification's implied type",
 		Technique: "bounded exhaustive enumeration of (spec tree, body) pairs on the real hcldec; type-conformance invariant + agreement with a reference decoder over the abstract body",
-		Rule: "spec trees: quick = every tree of depth <= 2 over the rich alphabet (AttrSpec x 8 types (string, number, bool, list(string), map(number), object with an optional attribute, list of such objects, dynamic) x required, LiteralSpec, ExprSpec, BlockAttrsSpec x 3 element types x required, BlockLabelSpec 0..1, BlockSpec x required, BlockList/SetSpec x 4 Min/Max, BlockTupleSpec x 2, BlockMap/BlockObjectSpec x 1..2 labels, DefaultSpec (literal and attribute default of equal implied type), TransformExpr/TransformFuncSpec x {wrap: v -> [v], isnull: v -> bool, strlen: string -> number (over string-typed wrapped specs)}, RefineValueSpec x {noop,notnull}, ValidateSpec x {ok,warn,rejectnull}, ObjectSpec/TupleSpec of 1..2 children) + every tree of depth 3 over the reduced alphabet; thorough = depth <= 3 rich + depth 4 tiny (gen/specgen/enum.go); preconditions respected (consecutive label indices, no dynamic types under BlockMapSpec, equal implied types and non-block default in DefaultSpec, total transform functions, refinements that hold); " +
-			"bodies per spec (gen/specgen/bodies.go): product of {absent, 2 conforming values} per attribute and every block count 0..3 per block type with representative contents, plus every body within k edits (k=1 quick, 2 thorough) of the min/full0/full1/mix base bodies (mix = blocks of one type with different contents) (remove attr, replace value by each of 8 pool values incl. null, unknown, dynamic and wrongly typed literals, extra attr, extra block type, remove block, duplicate block, add label, drop label; at every nesting level). " +
+		Rule: "spec trees: quick = every tree of depth <= 2 over the rich alphabet (AttrSpec x 8 types (string, number, bool, list(string), map(number), object with an optional attribute, list of such objects, dynamic) x required, LiteralSpec, ExprSpec, BlockAttrsSpec x 3 element types x required, BlockLabelSpec 0..1, BlockSpec x required, BlockList/SetSpec x 4 Min/Max, BlockTupleSpec x 2, BlockMap/BlockObjectSpec x 1..2 labels, DefaultSpec (literal and attribute default of equal implied type), TransformExpr/TransformFuncSpec x {wrap: v -> [v], isnull: v -> bool, strlen: string -> number (over string-typed wrapped specs)}, RefineValueSpec x {noop,notnull}, ValidateSpec x {ok,warn,rejectnull}, ObjectSpec/TupleSpec of 1..2 children) + every tree of depth 3 over the reduced alphabet + the label-depth trees: every tree of depth 2..3 over a small alphabet (attr string/dynamic, literal, attrs, label 0, every block spec kind, BlockMap/BlockObjectSpec x {1,3} labels, default, wrap transforms, refine, validate, object/tuple) that contains a BlockMapSpec/BlockObjectSpec with 3 label names (at the top level, one level down inside every wrapping kind, and around every depth-2 tree); thorough = depth <= 3 rich + depth 4 tiny + label-depth trees with 3 and 4 label names (gen/specgen/enum.go); preconditions respected (consecutive label indices, no dynamic types under BlockMapSpec, equal implied types and non-block default in DefaultSpec, total transform functions, refinements that hold); " +
+			"bodies per spec (gen/specgen/bodies.go): product of {absent, 2 conforming values} per attribute and every block count 0..3 per block type with representative contents, plus every body within k edits (k=1 quick, 2 thorough) of the min/full0/full1/mix base bodies (mix = blocks of one type with different contents) (remove attr, replace value by each of 8 pool values incl. null, unknown, dynamic and wrongly typed literals, extra attr, extra block type, remove block, duplicate block, add label, drop label; at every nesting level), plus the label-vector family (gen/specgen/labels.go): for every BlockMap/BlockObjectSpec with n >= 2 label names anywhere in the spec, the full0 body with that spec's blocks replaced by every sequence of 1..3 blocks whose label vectors are drawn from {x,y}^n (up to exchanging x and y: every pattern of shared prefixes of length 0..n, duplicates, and texts recurring across levels; block contents full0, full1, min). " +
 			"distinct = distinct (spec, decoded value or error type)",
 		Assumptions: []string{
 			"hclsyntax parsing and expression evaluation, go-cty conversion/unification/value constructors are trusted (refdec uses go-cty)",
